@@ -336,17 +336,24 @@ def venom_convert(in_t, out_t):
     return ins, r
 
 
+CRASHES = {}
+
+
 def convert_templates(kind):
     """-> list of (cty_in term, cty_out term, template) for every pair the real convert accepts."""
     from vyper.exceptions import VyperException
     tys = conv_types()
     out = []
+    CRASHES[kind] = []
     with settings_ctx():
         for ci, ki, ti in tys:
             for co, ko, to in tys:
                 try:
                     t = legacy_convert(ti, to) if kind == "legacy" else venom_convert(ti, to)
                 except VyperException:
+                    continue      # the pair is rejected with a user-facing diagnostic
+                except Exception as e:  # noqa  -- the generator itself crashed on this pair
+                    CRASHES[kind].append((ki, ko, f"{type(e).__name__}: {str(e)[:120]}"))
                     continue
                 out.append((ci, co, ki, ko, t))
     return out
